@@ -81,8 +81,15 @@ func (c *Ctx) Begin(idx int) bool {
 	return true
 }
 
+// EndHook, when set, runs at the end of every case while the case is still open (so that it can report violations): the
+// place for canaries over package-level state of the library.
+var EndHook func(c *Ctx)
+
 // End journals the end of the current case.
 func (c *Ctx) End() {
+	if EndHook != nil {
+		EndHook(c)
+	}
 	idx := atomic.LoadInt64(&c.cur)
 	fmt.Fprintf(c.journal, "E %d\n", idx)
 	atomic.StoreInt64(&c.cur, -1)
